@@ -120,3 +120,31 @@ func TestFinding_C16_ResetWorldVsNewWorld(t *testing.T) {
 		probe("C16", c.name+" NewEntity after everything", func() { w.NewEntity() })
 	}
 }
+
+// C16 (observer objects): an observer whose registration was REJECTED keeps the id it was handed (the id is
+// taken from the pool before the For-list is validated). On a new world that id is never handed out again, so a
+// later Unregister of the object panics "not found". A used world hands the same id out again after Reset: there
+// the same Unregister call silently removes ANOTHER observer (known finding rejected-observer-after-reset).
+func TestFinding_C16_RejectedObserverAfterReset(t *testing.T) {
+	for _, name := range []string{"reset-world", "new-world"} {
+		w := ecs.NewWorld(2, 1)
+		ecs.ComponentID[A](w)
+		ecs.ComponentID[R1](w)
+		zombie := ecs.Observe(ecs.OnAddRelations).For(ecs.C[A]()).Do(func(ecs.Entity) {})
+		probe("C16", name+" observer For(plain A) of OnAddRelations: Register", func() { zombie.Register(w) })
+		pre := ecs.Observe(ecs.OnCreateEntity).Do(func(ecs.Entity) {})
+		pre.Register(w) // (Reset only resets the observer id pool when something is registered)
+		if name == "reset-world" {
+			w.Reset()
+		} else {
+			pre.Unregister(w)
+		}
+		fired := 0
+		o1 := ecs.Observe(ecs.OnAddRelations).Do(func(ecs.Entity) { fired++ })
+		probe("C16", name+" fresh observer: Register", func() { o1.Register(w) })
+		probe("C16", name+" rejected observer: Unregister", func() { zombie.Unregister(w) })
+		x := w.NewEntity()
+		ecs.NewMap1[R1](w).NewEntity(&R1{}, ecs.RelIdx(0, x))
+		fmt.Printf("FINDING-PROBE C16 %s fresh observer fired after that: panicked=%v\n", name, fired == 0)
+	}
+}
